@@ -32,7 +32,7 @@ def run(ctx):
                 "presence, random bits incl. NaN payloads, junk in absent fields) and AssetBinary_Test.bin validated by "
                 "TLC. Non-trivial = at least one spec with a present optional field.")
     binary = ctx.build("release", "mvh_cont")
-    runs, max_specs = ctx.pick((300, 6), (5000, 8))
+    runs, max_specs = ctx.pick((300, 6), (3000, 8))
     cc.round_trip_check(ctx, "C18", binary, "MC_AssetBinary", "Gen_AssetBinary.cfg", "Trace_AssetBinary", "asset",
                         ["PickBucket", "PickValue"], ["PickSeed", "StepSeed"], [runs, max_specs],
                         _case, _event,
